@@ -23,12 +23,18 @@ func checkC09(c *Ctx) {
 	r.Rule("C09.a", "every construction of UCaseOnly passes through the exhaustiveness check on the same arms and target, or is a pattern-preserving rebuild", 2)
 	r.Rule("C09.b", "exaustiveCheck panics iff some case name of the union is not among the arms' case ids", 1)
 	r.Rule("C09.c", "default-arm detection and its use", 4)
+	r.Rule("C09.g", "the diagnostic naming the uncovered case reaches the console as it was built: PanicNow/psPanic prefix the position, OnParseError prints the recovered value unmodified", 1)
 	r.Rule("C09.d", "never-reached defaults are exhaustive in every checked-in generated file; the panic is emitted only for default-less matches", 30)
 
 	f := c.LoadFC("fc")
 	if f == nil {
 		return
 	}
+	// (g) the path of the diagnostic to the console
+	checkOnParseErrorForm(c, f, "C09.g")
+	c.expectNF(f, "C09.g", "psPanic", []string{"seq[tkzPanic(p0.tkz, p1)]"}, "psPanic hands the message on unchanged")
+	c.expectNF(f, "C09.g", "PanicNow", []string{"seq[tkzPanic(var:lastTkz, p0)]"}, "PanicNow hands the message on unchanged")
+	c.expectNF(f, "C09.g", "tkzPanic", []string{`seq[frt.Panicf2(<msg>, frt.Sprintf2(<str>, tkzToFPosInfo(p0).LineNum, tkzToFPosInfo(p0).ColNum), p1)]`}, "the position is prefixed, the message follows unchanged")
 	ctorKey := f.Path + ".New_UnionMatchRules_UCaseOnly"
 	// (a)
 	sites := 0
